@@ -312,9 +312,9 @@ func c15ExecR(r *vf.Run, variant, maxLen int, hist int, c *vf.Chooser) (keys, wh
 	if hist == 2 {
 		// connection 1: an exchange explored over the same alphabet (it may fail or be aborted at any point);
 		// whatever genuine server signature it produced is replay material for connection 2
-		pre := &c15Server{c: c, variant: variant, maxLen: maxLen, lastWasFinal: -1, cbData: srv.cbData}
+		pre := &c15Server{c: c, variant: variant, maxLen: maxLen - 1, lastWasFinal: -1, cbData: srv.cbData}
 		var preErr error
-		if p, w := vf.Guard(func() { preErr = c15Drive(r, pre, shared, maxLen) }); p {
+		if p, w := vf.Guard(func() { preErr = c15Drive(r, pre, shared, maxLen-1) }); p {
 			add("panic/"+vf.PanicSite(w), w)
 			return
 		}
@@ -347,6 +347,15 @@ func c15ExecR(r *vf.Run, variant, maxLen int, hist int, c *vf.Chooser) (keys, wh
 	protoStates(r, transcript)
 	ok := authErr == nil
 	legit := srv.legit()
+	if ok && legit {
+		r.Outcome(fmt.Sprintf("reached/legitimate-success/hist=%d", hist))
+	}
+	for _, x := range srv.sent {
+		r.Outcome("reached/symbol/" + c15SymNames[x])
+	}
+	if hist == 2 && strings.Contains(histDesc, "true]") {
+		r.Outcome("reached/earlier-exchange-ended-in-error")
+	}
 	if ok && !legit {
 		// classify why it is not legitimate
 		why := "no-server-signature"
@@ -472,19 +481,19 @@ func init() {
 	vf.Register(&vf.Check{
 		ID: "C15", Title: "SCRAM authenticates the server",
 		Run: func(r *vf.Run) {
-			r.SetRule("every server message sequence up to length L over the 14-symbol alphabet {valid server-first, server-first with foreign/truncated nonce, server-first with an unrelated nonce longer than any seen so far, malformed server-first, valid server-final (genuine signature over whatever exchange is running), server-final of another exchange/key, server-final with valid prefix and tampered tail, server-final over empty state, server-final with an empty verifier, server-final with a proper prefix of the genuine signature, empty challenge, junk, 235, 535}, chosen on the fly after each client message, through smtp.Client.Auth on the synchronous connection, for SCRAM-SHA-1/-256 and both PLUS variants, with a fresh Auth object, with an Auth object that already completed a conforming exchange on an earlier connection (whose genuine server signature the server may replay), and with an Auth object that went through an earlier exchange which is itself explored over the alphabet (so it may have failed or been aborted at any point; two exchanges of up to L-2 server messages each); reference automaton decides which successes are legitimate; distinct by (variant, sequence)")
+			r.SetRule("every server message sequence up to length L over the 14-symbol alphabet {valid server-first, server-first with foreign/truncated nonce, server-first with an unrelated nonce longer than any seen so far, malformed server-first, valid server-final (genuine signature over whatever exchange is running), server-final of another exchange/key, server-final with valid prefix and tampered tail, server-final over empty state, server-final with an empty verifier, server-final with a proper prefix of the genuine signature, empty challenge, junk, 235, 535}, chosen on the fly after each client message, through smtp.Client.Auth on the synchronous connection, for SCRAM-SHA-1/-256 and both PLUS variants, with a fresh Auth object, with an Auth object that already completed a conforming exchange on an earlier connection (whose genuine server signature the server may replay), and with an Auth object that went through an earlier exchange which is itself explored over the alphabet (so it may have failed or been aborted at any point; an earlier exchange of up to L-2 and a judged exchange of up to L-1 server messages); reference automaton decides which successes are legitimate; distinct by (variant, sequence)")
 			r.Assume("PLUS variants run over a fabricated TLS 1.2 connection state (tls-unique); the real handshake is covered by C14", "password/user are ASCII")
 			maxLen0 := 5
 			if r.Thorough {
 				maxLen0 = 7
 			}
 			r.Extra("max_sequence_length", maxLen0)
-			r.Extra("max_sequence_length_two_exchange_histories", maxLen0-2)
+			r.Extra("max_sequence_length_two_exchange_histories", fmt.Sprintf("%d + %d", maxLen0-2, maxLen0-1))
 			for vv := 0; vv < 12; vv++ {
 				v, reuse := vv%4, vv/4
 				maxLen := maxLen0
 				if reuse == 2 {
-					maxLen = maxLen0 - 2 // per exchange
+					maxLen = maxLen0 - 1 // judged exchange; the earlier exchange gets one message less
 				}
 				vf.Explore(r, 2*maxLen+1, fmt.Sprintf("C15 %s history=%v", c15Variants[v], reuse), func(c *vf.Chooser) {
 					keys, whats, desc := c15ExecR(r, v, maxLen, reuse, c)
@@ -515,6 +524,10 @@ func init() {
 						})
 					}
 				})
+			}
+			r.Reached("reached/legitimate-success/hist=0", "reached/legitimate-success/hist=1", "reached/legitimate-success/hist=2", "reached/earlier-exchange-ended-in-error")
+			for _, n := range c15SymNames {
+				r.Reached("reached/symbol/" + n)
 			}
 		},
 		Replay: func(r *vf.Run, kase json.RawMessage) {
